@@ -348,6 +348,18 @@ int main(int argc, char **argv)
     vrt::hist::explorer<log_sys> e("log_seq_wide", l);
     e.run();
   }, 7200);
+  // sibling names of which one is a proper prefix of the other: locations are told apart by
+  // the whole name, whatever the order in which they were created
+  vrt::shard("log_seq_prefix_names", [] {
+    NAMES = {"ab", "a"};
+    NODES.clear();
+    all_paths(2, path{}, NODES);
+    NOBJ = 1;
+    vrt::hist::limits l;
+    l.max_depth = 60;
+    vrt::hist::explorer<log_sys> e("log_seq_prefix_names", l);
+    e.run();
+  }, 7200);
   vrt::shard("log_seq_deep", [th] {
     NAMES = {"a", "b"};
     // depth 3 chain with side branches
